@@ -91,7 +91,11 @@ func isConnectionSpecific(k []byte) bool {
 
 func ToLower(b []byte) []byte {
 	for i := range b {
-		b[i] |= 32
+		// Only the letters: setting the bit on everything turns '_' into DEL
+		// and '^' into '~'.
+		if b[i] >= 'A' && b[i] <= 'Z' {
+			b[i] |= 32
+		}
 	}
 
 	return b
